@@ -151,18 +151,30 @@ def check(prog, run):
     pt = cls.find_method("print_type")
     shapes.require(pt is not None, "C12.P3: print_type not found")
     handled = {}
-    for n in own_nodes(pt.node):
-        if isinstance(n, ast.If):
-            for names, _ in shapes.class_tests(n.test, pt.params[1]):
-                for st in n.body:
-                    if isinstance(st, ast.Return) and isinstance(st.value, ast.Call) and isinstance(st.value.func, ast.Attribute):
-                        for nm in names:
-                            handled[nm] = st.value.func.attr
+    from .. import dispatch
+    from ..canon import Canon
+    hier = dispatch.Hierarchy(prog)
+    pcn = Canon(pt.node)
+    for k in KINDS:
+        # path form: what print_type returns when its argument is exactly a k (independent of the chain's shape)
+        targets = set()
+        for kind, st, env in dispatch.executions(hier, pt, pt.params[1], k):
+            if kind == "return" and st.value is not None:
+                v = pcn.expr(st.value)
+                if isinstance(v, ast.Call) and isinstance(v.func, ast.Attribute) and isinstance(v.func.value, ast.Name) and v.func.value.id == "self":
+                    targets.add(v.func.attr)
+                else:
+                    targets.add(None)
+            else:
+                targets.add(None)
+        if len(targets) == 1 and None not in targets:
+            handled[k] = targets.pop()
     for k in KINDS:
         r.instance("print_type %s -> %s" % (k, handled.get(k)))
         if k not in handled or cls.find_method(handled[k]) is None:
             run.report(r, "%s:ASTSchemaPrinter.print_type:unhandled(%s)" % (PR, k), pt.where(), "%s is not printed" % k)
-    if not isinstance(pt.node.body[-1], ast.Raise):
+    unknown = dispatch.executions(hier, pt, pt.params[1], "ListType")
+    if not unknown or any(kind != "raise" for kind, _st, _env in unknown):
         run.report(r, "%s:ASTSchemaPrinter.print_type:no-final-error" % PR, pt.where(), "unknown kinds are printed as nothing")
     want = {
         "ScalarType": {"name", "description"},
